@@ -12,8 +12,9 @@ func init() {
 		in := fs.String("in", "", "cases ndjson")
 		out := fs.String("out", "", "trace ndjson")
 		seed := fs.Int64("seed", 1, "seed of the BVH axis choices")
+		par := fs.Int("par", 1, "goroutines issuing the queries of a batch at the same time")
 		_ = fs.Parse(args)
-		return spatial.Run(*in, *out, *seed)
+		return spatial.Run(*in, *out, *seed, *par)
 	}
 	commands["spatial-random"] = func(args []string) error {
 		fs := flag.NewFlagSet("spatial-random", flag.ExitOnError)
